@@ -10,7 +10,7 @@
      - the state is then ADOPTED from the log (resynchronisation), so one mismatch does not mask the rest of the trace.
    The only unlogged input of a step is the IDNA answer for a non-trivial domain; it is bound from the log:
    Some(logged hostname) when the call left a host, None when the parse failed. *)
-EXTENDS UrlApi, Json
+EXTENDS UrlApi, Options, Json
 CONSTANT TraceFile
 Trace == ndJsonDeserialize(TraceFile)
 VARIABLES l, bad,
@@ -27,7 +27,7 @@ StateOfLog(e) == [h \in Handles |-> ObjOfLog(e.objs[h])]
 
 IdnaOf(e) == IF e.fail \/ ~e.objs[e.h].live THEN None ELSE Some(e.objs[e.h].g.hostname)
 Expected(os, e) ==      \* the specification's state after the call; [os, fail]
-  CASE e.op = "parse" -> LET b == IF e.bs = <<>> THEN None ELSE Some(Parse(e.bs[1], None, IF e.bidna = <<>> THEN None ELSE Some(e.bidna[1])))
+  CASE e.op = "parse" -> LET b == IF e.bs = <<>> THEN None ELSE Some(ParseO(e.bs[1], None, IF e.bidna = <<>> THEN None ELSE Some(e.bidna[1]), POpts))
                              r == ParseInto(os, e.h, e.a, IF b = None THEN None ELSE Some(Get(b).u), IdnaOf(e))
                              r2 == IF r.fail /\ ~e.fail THEN ParseInto(os, e.h, e.a, IF b = None THEN None ELSE Some(Get(b).u), Some(LOCALHOST)) ELSE r
                          IN IF b # None /\ Get(b).res # "ok" THEN [os |-> os, fail |-> TRUE] ELSE [os |-> r2.os, fail |-> r2.fail]
@@ -35,8 +35,8 @@ Expected(os, e) ==      \* the specification's state after the call; [os, fail]
                                r2 == IF r.fail /\ ~e.fail THEN ParseInto(os, e.h, e.a, Some(os[e.hb].u), Some(LOCALHOST)) ELSE r
                            IN [os |-> r2.os, fail |-> r2.fail]
     [] e.op = "set" -> LET o1 == SetterOn(os, e.h, e.n, e.a, IdnaOf(e))
-                           o2 == IF e.n \in {"host", "hostname"} /\ Getters(o1[e.h].u) # e.objs[e.h].g THEN SetterOn(os, e.h, e.n, e.a, None) ELSE o1
-                           o3 == IF e.n \in {"host", "hostname"} /\ Getters(o2[e.h].u) # e.objs[e.h].g THEN SetterOn(os, e.h, e.n, e.a, Some(LOCALHOST)) ELSE o2
+                           o2 == IF e.n \in {"host", "hostname"} /\ PGetters(o1[e.h].u) # e.objs[e.h].g THEN SetterOn(os, e.h, e.n, e.a, None) ELSE o1
+                           o3 == IF e.n \in {"host", "hostname"} /\ PGetters(o2[e.h].u) # e.objs[e.h].g THEN SetterOn(os, e.h, e.n, e.a, Some(LOCALHOST)) ELSE o2
                        IN [os |-> o3, fail |-> FALSE]
     [] e.op = "sp" -> [os |-> SPOn(os, e.h, e.n, e.a, e.b), fail |-> FALSE]
     [] e.op = "clone" -> [os |-> CloneOn(os, e.hb, e.h), fail |-> FALSE]
@@ -57,7 +57,7 @@ Check(os, e) ==
     <<"C01/C05: state of the handle acted on differs from the specification (record)",
         e.fail \/ ~e.objs[e.h].live \/ x.os[e.h].u = RecOf(e.objs[e.h].r)>>,
     <<"C01/C05/C19: getters of the handle acted on differ from the specification",
-        e.fail \/ ~e.objs[e.h].live \/ Getters(x.os[e.h].u) = e.objs[e.h].g>>,
+        e.fail \/ ~e.objs[e.h].live \/ PGetters(x.os[e.h].u) = e.objs[e.h].g>>,
     <<"C11/C12: stored parameter list of the handle acted on differs from the specification",
         e.fail \/ ~e.objs[e.h].live \/ ~e.objs[e.h].r.hassp \/ x.os[e.h].params = NormL(e.objs[e.h].r.params)>>,
     <<"C13: a handle other than the one acted on changed", \A h \in live \ {e.h} : os[h].live => ObjOfLog(e.objs[h]) = os[h]>>,
